@@ -579,6 +579,46 @@ def lazy_history(rng, length, sids=None):
     return g.hist
 
 
+def lazy_flood_history(rng):
+    """C09 with a long queue: several hundred actions pending at one maintain (more than any fixed-size buffer a queue
+    might start with: 256, 512), among them early closures that queue further actions; actions before and after the
+    256th / 512th position and the nested ones write and remove the same few cells, so the order in which everything
+    ran is visible in what is left"""
+    g = Gen(rng)
+    for sid in rng.sample(range(NSIDS), rng.randint(1, 2)):
+        g.register(sid)
+    n = rng.randint(2, 4)
+    g.hist.append((wg.CI, [n]))
+    g.created(n)
+    total = rng.choice([250, 257, 260, 300, 513, 520])
+
+    def cell_op():
+        sid = rng.choice(g.regs)
+        h = rng.randrange(n)
+        if rng.random() < 0.75:
+            u, v = g.tok(sid)
+            return (LINS, [sid, h, u, v])
+        return (LREM, [sid, h])
+
+    early = sorted(rng.sample(range(0, 12), rng.randint(1, 3)))
+    for k in range(total):
+        if k in early:
+            prog = [cell_op() for _ in range(rng.randint(1, 3))]
+            if rng.random() < 0.3:
+                prog.append((LEXEC, encode_ops([cell_op()])))
+            g.hist.append((LEXEC, encode_ops(prog)))
+        else:
+            g.hist.append(cell_op())
+    g.hist.append((wg.M, []))
+    for sid in g.regs:
+        g.hist.append((MSK, [sid]))
+        for h in range(n):
+            g.hist.append((GET, [sid, h]))
+    g.hist.append((wg.M, []))
+    g.hist.append((DROPW, []))
+    return g.hist
+
+
 def lazy_purge_history(rng):
     """C05 through maintain: deferred deletions of entities that own components, and closures queued in
     the same frame which create entities (taking the indices the merge has just freed), insert for them
